@@ -18,11 +18,12 @@ theorem C10.closed_absorbing (s : St) (e : Ev) (h : s.status = .closed) :
     t.wireAfterClose = s.wireAfterClose ∧ t.pending = s.pending := by
   exact step_closed s e h
 
-/-- … for whole histories: whatever happens after a Close, the wire and the notifications stay as they were at the Close -/
+/-- … for whole histories: whatever happens after a Close — including a back-off that elapses or a dial that completes — no
+    connect attempt starts, and the wire and the notifications stay as they were at the Close -/
 theorem C10.silence_after_close (evs after : List Ev) :
     let s := run {} (evs ++ [.close])
     let t := run s after
-    t.status = .closed ∧ t.sent = s.sent ∧ t.inc = s.inc ∧ t.tokens = s.tokens ∧ t.disc = s.disc ∧ t.reconn = s.reconn ∧
+    t.status = .closed ∧ t.sent = s.sent ∧ t.inc = s.inc ∧ t.tokens = s.tokens ∧ t.dials = s.dials ∧ t.disc = s.disc ∧ t.reconn = s.reconn ∧
     t.streams = s.streams ∧ t.disconnectSent = 1 ∧ t.wireAfterClose = 0 := by
   intro s t
   have hs : s.status = .closed := by
@@ -30,8 +31,8 @@ theorem C10.silence_after_close (evs after : List Ev) :
     rw [run_append]; exact step_close_status _
   have hi := (inv_reach (evs ++ [.close])).i1
   have hr := run_closed s after hs
-  obtain ⟨r1, r2, _, r4, r5, _, r7, r8, r9, r10, r11, _⟩ := hr
-  exact ⟨r1, r5, r2, r4, r7, r8, r9, by rw [r10]; exact hi.dsc hs, by rw [r11]; exact hi.wac⟩
+  obtain ⟨r1, r2, r3, r4, r5, _, r7, r8, r9, r10, r11, _⟩ := hr
+  exact ⟨r1, r5, r2, r4, r3, r7, r8, r9, by rw [r10]; exact hi.dsc hs, by rw [r11]; exact hi.wac⟩
 
 /-- requests after (or waiting at) the Close fail, all of them, none is sent -/
 theorem C10.requests_fail_after_close (evs : List Ev) (r : Nat) :
